@@ -17,7 +17,7 @@ CLAIMED = {
         design="4/C08"),
     "C09": dict(
         technique="MIR path-sensitive guard analysis: role fact about info.sender on every success path of each privileged execute arm (DNF over callee success paths), variant classification, role-slot writer census",
-        note="Decided: R09.1 every success path of the 23 privileged arms establishes the tabled role (Admin item check / Config field equality / tabled disjunction) about info.sender; R09.2 all 29 ExecuteMsg variants classified, unclassified fails closed; R09.3 Admin items and Config are written only by instantiate and the role-transfer arm. Not decided: cw-controllers internals (trusted).",
+        note="Decided: R09.1 every success path of the 23 privileged arms establishes the tabled role (Admin item check / Config field equality / tabled disjunction) about info.sender; R09.2 all 29 ExecuteMsg variants classified, unclassified fails closed; R09.3 Admin items and Config are written only by instantiate and the role-transfer arm; R09.4 instantiate never places the deployer (info.sender) in a role field of Config other than the owner's, so a former owner holds no role after UpdateOwner (added after seed C09g). Not decided: cw-controllers internals (trusted).",
         design="4/C09"),
     "C16": dict(
         technique="MIR path-sensitive guard analysis and stored-value flow: restriction guard shape on Open/Close, marker/stamp writes in the liquidation and trade replies, marker preservation by every vAMM-map writer",
@@ -33,7 +33,7 @@ CLAIMED = {
         design="4/C10"),
     "C03": dict(
         technique="MIR message census over all product code (+fixture) and receiver/payer origin analysis of every transfer constructible on each chain step",
-        note="Decided: R03.1 only BankMsg::Send, cw20 Transfer/TransferFrom, WasmMsg::Execute with empty funds, vAMM swap/funding/SetOpen and insurance Withdraw messages are constructed anywhere; R03.2 engine transfers go to config.insurance_fund/config.fee_pool/engine/acting trader/stored liquidator and are paid by the acting trader or the vault; R03.3 liquidation replies never pay or charge the liquidated trader; R03.4 insurance Withdraw pays config.engine. Not decided: amounts and conservation inside bank/cw20 (trusted); fee-pool SendToken recipient is arbitrary by design.",
+        note="Decided: R03.1 only BankMsg::Send, cw20 Transfer/TransferFrom, WasmMsg::Execute with empty funds, vAMM swap/funding/SetOpen and insurance Withdraw messages are constructed anywhere; R03.2 engine transfers go to config.insurance_fund/config.fee_pool/engine/acting trader/stored liquidator and are paid by the acting trader or the vault; R03.3 liquidation replies never pay or charge the liquidated trader; R03.4 insurance Withdraw pays config.engine; R03.5 the liquidator a liquidation reply pays is this transaction's sender: Liquidate stores info.sender in the in-flight slot unconditionally on every success path (added after seed C03g: a conditional store let an address left by an earlier liquidation collect the fee). Not decided: amounts and conservation inside bank/cw20 (trusted); fee-pool SendToken recipient is arbitrary by design.",
         design="4/C03"),
     "C17": dict(
         technique="MIR sibling agreement between query and execute arms (same pricing callee, same operand origins), reserve-writer argument flow, limit-comparison table on success/reject paths, cross-contract limit forwarding",
@@ -81,7 +81,7 @@ CLAIMED = {
         design="4/C01"),
     "C02": dict(
         technique="finite-domain sign-table interpretation over the execute->vAMM->reply chain graph: side/direction helper tables, vAMM direction plumbing and event-attribute mapping extracted from MIR and composed for every assignment of acting side x position kind",
-        note="Decided: R02.1 on every swap edge and assignment the engine's size change has the sign of the vAMM's net-position change and its operand is the base amount of that swap kind (found F8: partial liquidation through SwapInput, fixed); R02.2 positions are removed/zeroed only after a SwapOutput of size.value in the position's own direction, every swap reply path stores or removes the position; R02.3 attribute keys / type values parsed by the engine are those the vAMM emits, with requested vs priced amounts on the right keys; R02.4 the reduce-vs-reverse decision compares the position's current spot notional with the requested notional, and the partial-liquidation ratio that scales the liquidated size is validated <= decimals at every writer. Not decided: assumes the stored invariant size>0 <=> direction==AddToAmm; failed transactions are covered by C08.",
+        note="Decided: R02.1 on every swap edge and assignment the engine's size change has the sign of the vAMM's net-position change and its operand is the base amount of that swap kind (found F8: partial liquidation through SwapInput, fixed); R02.2 positions are removed/zeroed only after a SwapOutput of size.value in the position's own direction, every swap reply path stores or removes the position; R02.3 attribute keys / type values parsed by the engine are those the vAMM emits, with requested vs priced amounts on the right keys; R02.4 the reduce-vs-reverse decision compares the position's current spot notional with the requested notional, and the partial-liquidation ratio that scales the liquidated size is validated <= decimals at every writer; R02.5 the direction stored with a changed size follows the sign of that size: taken from the acting side wherever the size grows (the old size may be zero and a zero-size record's direction is arbitrary), kept from the record only where the size shrinks (added after seed C02f) - with R02.1/R02.4 this makes 'size>0 <=> direction==AddToAmm for live records' an inductive invariant of the analysed paths instead of an assumption. Not decided: nothing numeric beyond operand identity; failed transactions are covered by C08.",
         design="4/C02"),
     "C07": dict(
         technique="MIR cross-contract type agreement of every query edge (resolved generic arguments), chain-wide absence of gating facts, contradiction rule between the selection comparison and the partial reply's arithmetic, event-order rule for balance-sized top-ups, return-vs-queued agreement, non-zero-amount facts inherited down the call chain for every token-moving message of the liquidation replies",
